@@ -229,6 +229,14 @@ def run_meta(tops, checks):
                 want = [a.index for a in top.atoms if op(f(a), c["value"])]
         else:
             raise ValueError(k)
+        if c.get("or_reject"):
+            # a form the documentation does not define (signed numbers): refusing it is fine, accepting it is fine only
+            # with the plain numeric meaning
+            from mdtraj.core.selection import parse_selection
+            try:
+                parse_selection(c["lhs"])
+            except Exception:  # noqa: BLE001
+                continue
         ok = lhs == want and all(b > a for a, b in zip(lhs, lhs[1:]))
         if not ok:
             d = dict(c)
